@@ -244,7 +244,18 @@ def concrete_session_run(prog, unit, req):
         it.concrete_loops = True
         S = Session(it, with_protocol=bool(st.get('with_protocol', True)), values=st)
         recv = {'fsm': S.fsm, 'peering': S.peering, 'protocol': S.P}[req['receiver']]
-        args = [RP.unj(a) for a in req.get('args', [])]
+
+        def robj(a):
+            if isinstance(a, dict) and 'obj' in a:
+                k = a['obj']
+                if k == 'P':
+                    return S.P
+                from .values import Obj
+                return Obj(k, {kk: vv for kk, vv in a.items() if kk != 'obj'})
+            return RP.unj(a)
+        args = [robj(a) for a in req.get('args', [])]
+        if req['method'] in ('buildProtocol', 'clientConnectionFailed'):
+            S.ghost.f['n_pending'] = S.ghost.f['n_pending'] - 1
         f = prog.func(unit.qual)
         kind, exc = 'return', None
         try:
@@ -252,6 +263,44 @@ def concrete_session_run(prog, unit, req):
         except PyExc as e:
             kind, exc = 'raise', e.val.clsname
         return kind, exc, RP.heap_view(S, None, p.effects)
+    finally:
+        CUR.path = saved
+
+
+def observed_inv_failures(prog, req, view):
+    """dual-mode use of the invariant: evaluate every Inv clause on the post-state OBSERVED on the real code"""
+    from .paths import Path
+    from .values import CUR
+    from .interp import Interp
+    from .session import Session
+    import z3 as _z3
+    st = dict(req['state'])
+    for k in ('st', 'H', 'KA', 'allow_auto', 'crc', 'tr_connected', 'tr_disconnecting', 'P_disconnected', 'n_pending'):
+        if k in view:
+            st[k] = view[k]
+    st['timers'] = {sh: {'status': t['status'], 'active': t['active'],
+                         'deadline': t['deadline'] if t['deadline'] is not None else 0.0}
+                    for sh, t in view.get('timers', {}).items()}
+    if view.get('protocol_none'):
+        st['with_protocol'] = False
+    p = Path([], [])
+    saved = CUR.path
+    CUR.path = p
+    try:
+        it = Interp(prog)
+        S = Session(it, with_protocol=bool(st.get('with_protocol', True)), values=st)
+        # witness-mode sessions carry concrete timers: give them the abstract fields the invariant reads
+        for sh, t in S.timers.items():
+            tv = st['timers'].get(sh, {})
+            t.f['_active'] = bool(tv.get('active'))
+            t.f['_deadline'] = float(tv.get('deadline') or 0.0)
+        from contracts.session import inv_terms
+        bad = []
+        for n, t in inv_terms(S.fsm):
+            r = _z3.simplify(t) if _z3.is_expr(t) else t
+            if (_z3.is_expr(r) and _z3.is_false(r)) or r is False:
+                bad.append(n)
+        return bad
     finally:
         CUR.path = saved
 
@@ -415,6 +464,12 @@ class Run(object):
                             diffs.append('outcome: raised %s (%s), spec says returns' % (out.get('exc'), out.get('exc_str')))
                         if sp.exc is not None and out.get('outcome') == 'return':
                             diffs.append('outcome: returned, spec says raises %s' % (sp.exc[0],))
+                        if out.get('view'):
+                            for clause in observed_inv_failures(self.prog, req, out['view']):
+                                mine = self.prop in unit.props_of('%s/post:Inv/%s' % (unit.name, clause))
+                                named = ('/post:Inv/' + clause) in fd.verdict.ob.name
+                                if named or (mine and fd.verdict.ob.name.startswith('requires:')):
+                                    diffs.append('Inv clause %s is false in the post-state observed on the real code' % clause)
                 else:
                     diffs = unit.expected(oc, fd.model, out)
             except Exception as e:
